@@ -560,6 +560,7 @@ func c31Render(in string) eng.Res {
 	}
 	used := map[string]bool{}
 	uses := 0
+	sketchMissing := ""
 	for _, e := range els {
 		for _, p := range []string{"fill", "stroke", "color", "background-color", "stop-color"} {
 			if v, ok := e.attrs[p]; ok && reThemeCode.MatchString(v) {
@@ -600,12 +601,21 @@ func c31Render(in string) eng.Res {
 				if e.inHTML || e.name == "foreignObject" {
 					continue // HTML content: there is no presentation attribute to carry an inline colour
 				}
+				if a.Sketch {
+					if sketchMissing == "" {
+						sketchMissing = desc // reported last, so that any other discrepancy of this render takes precedence
+					}
+					continue
+				}
 				return eng.Bad("inline-colour-missing-for-theme-class:"+prop, desc)
 			}
 			if !strings.EqualFold(got, wantL[code]) {
 				return eng.Bad("inline-colour-differs-from-theme-or-override:"+prop, fmt.Sprintf("inline %s, expected %s; %s", got, wantL[code], desc))
 			}
 		}
+	}
+	if sketchMissing != "" {
+		return eng.Bad("inline-colour-missing-for-theme-class:sketch-mode", sketchMissing)
 	}
 	c31LastCodes = used
 	var ks []string
